@@ -167,6 +167,23 @@ def run(chk):
         chk.instance(r_assoc, name, sample=dict(level=name, set_right=len(sr), set_left=arg, descending_loop=desc))
         if not ok:
             chk.violation(r_assoc, name, "%s no longer chains its operands into a left-nested tree (top = last operator, left children = earlier operators in order)" % name, fn["file"], fn["l"])
+        if loops:
+            lpc = show(strip(loops[0]["cond"])).replace(" ", "")
+            lb = [show(x).replace(" ", "") for x in stmt_list(loops[0]["body"])]
+            okc = lpc == "(index>0)" and len(lb) == 2 and "set_left(nodes[(index-1)])" in lb[0] and lb[1].startswith("(curr=") and "get_left()" in lb[1]
+            if not okc:
+                chk.violation(r_assoc, name + ":chain", "%s: the chaining loop must run index = size-1 ... 1 (index > 0) and do `curr->set_left(nodes[index-1]); curr = curr->get_left();` (found cond %s, body %s): the operator tree is no longer the left-nested one (or the loop never ends)" % (name, lpc, lb), fn["file"], loops[0]["l"])
+        whiles = [n for n in walk(fn["body"]) if n["k"] == "While"]
+        okw = False
+        if len(whiles) == 1:
+            first_if = [n for n in stmt_list(whiles[0]["body"]) if n["k"] == "If" and calls_in(n["then"], {"set_right"})]
+            if len(first_if) == 1 and first_if[0].get("else") is not None:
+                th = [show(x).replace(" ", "") for x in stmt_list(first_if[0]["then"])]
+                el = [show(x).replace(" ", "") for x in stmt_list(first_if[0]["else"])]
+                cd = show(strip(first_if[0]["cond"])).replace(" ", "")
+                okw = "current_node" in cd and "!" not in cd and len(th) == 2 and "set_right(node)" in th[0] and th[1] == "nodes.push_back((*current_node))" and el == ["nodes.push_back(node)"]
+        if not okw:
+            chk.violation(r_assoc, name + ":attach", "%s: inside the operand loop a pending operator gets the operand just parsed as its RIGHT child and is then recorded, otherwise (first operand) the operand itself is recorded; this shape was not found" % name, fn["file"], fn["l"])
         # operand on the right of each operator is the next level, pushed in input order
         pb = [show(c) for c in calls_in(fn["body"], {"push_back"})]
         if sorted(pb) != sorted(["nodes.push_back((*current_node))", "nodes.push_back(node)"]):
@@ -178,6 +195,57 @@ def run(chk):
         chk.instance(r_assoc, name, sample=dict(level=name, node=args))
         if len(rets) != 1 or args != ["curr.type", "curr.value", "left", "right"]:
             chk.violation(r_assoc, name, "%s no longer builds the node (operator, left, right) in operand order: %s" % (name, args), fn["file"], fn["l"])
+
+    # ---- C17.paren: parentheses and the optional sign in parse_factor
+    r_par = chk.rule("C17.paren", "parse_factor: a leading + or - is consumed and only the minus flips the sign; after '(' (a group, or the argument list of a scalar / elemental function) the token is consumed, a full set-level expression is parsed, ')' is REQUIRED (error node otherwise) and consumed, and the sign multiplies what is returned; a plain token is consumed after its node is built", floor=4)
+    pfac = pf["parse_factor"]
+
+    def tk_tests(cond):
+        out = []
+        for x in walk(cond):
+            if x["k"] == "Bin" and x.get("op") in ("==", "!="):
+                for y in x["c"]:
+                    y = strip(y)
+                    if y.get("k") == "Ref" and y.get("d") == "Enum" and "UDQTokenType" in (y.get("q") or ""):
+                        out.append((x["op"], y["n"]))
+        return out
+    groups = [n for n in walk(pfac["body"]) if n["k"] == "If" and tk_tests(n["cond"]) and {t for o, t in tk_tests(n["cond"])} == {"open_paren"}]
+    chk.instance(r_par, "groups", sample=dict(open_paren_branches=len(groups)))
+    if len(groups) != 2:
+        raise core.AnalysisBroken("parse_factor: expected two '(' branches (group, function arguments), found %d" % len(groups))
+    for gi, g in enumerate(groups):
+        seq = []
+        for st in stmt_list(g["then"]):
+            if st["k"] == "MCall" and st.get("m") == "next":
+                seq.append("next")
+            elif st["k"] == "Decl" and calls_in(st, {"parse_set"}):
+                seq.append("parse_set")
+            elif st["k"] == "If" and {t for o, t in tk_tests(st["cond"])} == {"close_paren"}:
+                err = any(r_["k"] == "Return" and any(y.get("k") == "Ref" and y.get("n") == "error" for y in walk(r_.get("e") or {})) for r_ in walk(st["then"]))
+                seq.append("close%s%s" % (tk_tests(st["cond"])[0][0], ":err" if err else ""))
+            elif st["k"] == "Return":
+                seq.append("return:sign" if any(y.get("k") == "Ref" and y.get("n") == "sign" for y in walk(st.get("e") or {})) else "return")
+            elif st["k"] in ("Bin", "OpCall") and calls_in(st, {"current"}):
+                pass
+        key = "group%d" % (gi + 1)
+        ok = tk_tests(g["cond"]) == [("==", "open_paren")] and seq == ["next", "parse_set", "close!=:err", "next", "return:sign"]
+        chk.instance(r_par, key, sample=dict(test=tk_tests(g["cond"]), sequence=seq))
+        if not ok:
+            chk.violation(r_par, key, "parse_factor, '(' branch %d: expected consume '(', parse_set, require ')' (error node unless it is there), consume ')', return sign * node; found test %s and sequence %s" % (gi + 1, tk_tests(g["cond"]), seq), pfac["file"], g["l"])
+    sg = [n for n in stmt_list(pfac["body"]) if n["k"] == "If" and {t for o, t in tk_tests(n["cond"])} == {"binary_op_add", "binary_op_sub"}]
+    oks = False
+    if len(sg) == 1:
+        inner = [n for n in stmt_list(sg[0]["then"]) if n["k"] == "If"]
+        oks = sorted(tk_tests(sg[0]["cond"])) == [("==", "binary_op_add"), ("==", "binary_op_sub")] and strip(sg[0]["cond"]).get("op") == "||" and len(inner) == 1 and tk_tests(inner[0]["cond"]) == [("==", "binary_op_sub")] \
+            and any(x["k"] == "Bin" and x.get("asg") and show(strip(x["c"][0])) == "sign" and show(strip(x["c"][1])).replace(" ", "") in ("(-1)", "-1") for x in walk(inner[0]["then"])) and bool(calls_in(sg[0]["then"], {"next"}))
+    chk.instance(r_par, "sign", sample=dict(ok=oks))
+    if not oks:
+        chk.violation(r_par, "sign", "parse_factor: a leading '+' or '-' must be consumed, and exactly the '-' sets the sign to -1", pfac["file"], pfac["l"])
+    tail = stmt_list(pfac["body"])[-3:]
+    okt = len(tail) == 3 and tail[0]["k"] == "Decl" and tail[1]["k"] == "MCall" and tail[1].get("m") == "next" and tail[2]["k"] == "Return" and any(y.get("k") == "Ref" and y.get("n") == "sign" for y in walk(tail[2].get("e") or {}))
+    chk.instance(r_par, "plain", sample=dict(ok=okt))
+    if not okt:
+        chk.violation(r_par, "plain", "parse_factor: a plain token must be turned into a node, consumed (next()) and returned multiplied by the sign", pfac["file"], pfac["l"])
 
     # ---- C17.class
     r_class = chk.rule("C17.class", "token classes: cmp + set + arithmetic = binary; scalar/elemental/binary pairwise disjoint; every function token type is in exactly one class", floor=40)
